@@ -156,6 +156,17 @@ static void sink(const unsigned char *s, size_t n, void *arg) {
             } else if ((lv == R_REJ || dv == R_REJ) && (r->lpart || r->domain))
                 viol("extra:non-null-on-syntactically-invalid", m, t, s, n, "rc=%d lpart=%s domain=%s", rc, r->lpart ? r->lpart : "NULL", r->domain ? r->domain : "NULL");
 #endif
+            /* address literals: the record must not depend on what follows the address in the caller's buffer (a port, the rest of a
+             * header line); the length argument delimits the address.  (Only literals and only tails without '@' or ']': for host
+             * names the library is documented to need length == strlen.) */
+            if (via == 0 && dn && D[0] == '[' && n + 8 < sizeof buf) {
+                memcpy(buf + n, ":25 x:y", 8);
+                eav_result_t *r2 = EMAIL[m](buf, n, t); MC_ADD(C_EVAL, 1);
+                if (r2->rc != r->rc || r2->is_ipv4 != r->is_ipv4 || r2->is_ipv6 != r->is_ipv6 || r2->is_domain != r->is_domain)
+                    viol("literal:record-depends-on-bytes-after-the-address", m, t, s, n, "with ':25 x:y' after the address (same length argument): rc=%d flags %d%d%d, alone: rc=%d flags %d%d%d",
+                         r2->rc, r2->is_ipv4, r2->is_ipv6, r2->is_domain, r->rc, r->is_ipv4, r->is_ipv6, r->is_domain);
+                eav_result_free(r2); buf[n] = 0;
+            }
             if (via == 0) eav_result_free(r);
         }
     }
